@@ -191,6 +191,21 @@ class KeyedList(Generic[ItemType, KeyType], MutableSequence, KeyedBase):  # pyli
         self._list.insert(index, item)
         self._dict[key] = item
 
+    def extend(self, values):
+        # Validate every incoming item before mutating, so that a failure part
+        # way through (duplicate key, wrong type) leaves the container as it was.
+        new_items, new_keys = [], {}
+        for value in list(values):
+            item, key = self._validate_item(value)
+            if key in self._dict or key in new_keys:
+                raise ValueError(
+                    f"Item with key `{repr(key)}` already in `{type_label(self._type)}`."
+                )
+            new_items.append(item)
+            new_keys[key] = item
+        self._list.extend(new_items)
+        self._dict.update(new_keys)
+
     def reverse(self):
         # The `MutableSequence` mixin swaps items pairwise through
         # `__setitem__`, which transiently duplicates keys; the key index does
